@@ -4,7 +4,7 @@ C07 — the hand-reviewed table of potential panic sites.
 `Gen.sites` (GenArms.lean, regenerated from /repo on every run) lists every `.unwrap()`, `.expect(`, `unreachable!`,
 `todo!`, `unimplemented!`, `panic!`, `assert!`, `as usize`, unchecked accessor and `x[i]` inside a function body of
 primitives/*.rs and steel_vm/primitives.rs (outside `#[cfg(test)]`).  Every entry below was reviewed in the source
-(2026-09-24); ids are hashes of (file, fn, kind, source line text, occurrence), so an entry stays valid when lines
+(2026-09-24, brought up to /repo commit dbe72b10 after the fixes of that day); ids are hashes of (file, fn, kind, source line text, occurrence), so an entry stays valid when lines
 move and becomes unmatched when the line itself changes: `panic_sites_classified` then fails until the new site is
 reviewed.
 
@@ -32,10 +32,11 @@ structure Review where
   reason : String
 
 def reviewed : List Review := [
+  ⟨14299630275091, .benign, "", "cast of the constant isize::BITS"⟩,  -- as_usize arithmetic_shift primitives/numbers.rs (added by /repo commit b3ca2f68)
   ⟨10788040694444, .guarded, "", "index >= guard.len() is rejected two lines above"⟩,  -- index bytes_set primitives/bytevectors.rs:258
   ⟨9866378230485, .guarded, "", "start < 0 / end < 0 rejected above"⟩,  -- as_usize bytes_to_string primitives/bytevectors.rs:391
   ⟨4117134229269, .guarded, "", "start < 0 / end < 0 rejected above"⟩,  -- as_usize bytes_to_string primitives/bytevectors.rs:392
-  ⟨14901114606446, .reachable, "bytes-to-string-end-beyond-length", "end is never compared with the length: (bytes->string/utf8 (bytes 65 66) 0 10)"⟩,  -- index bytes_to_string primitives/bytevectors.rs:394
+  ⟨14901114606446, .guarded, "", "end > len is rejected just above (since /repo commit 0364671b; was finding bytes-to-string-end-beyond-length)"⟩,  -- index bytes_to_string primitives/bytevectors.rs
   ⟨14262317470725, .benign, "", "RestArgsIter<&SteelVal>: the conversion to &SteelVal is the identity and never fails"⟩,  -- unwrap glob primitives/fs.rs:64
   ⟨8164795002734, .benign, "", "IntoSteelVal of a string / integer / custom struct never fails"⟩,  -- unwrap read_dir_iter_next primitives/fs.rs:199
   ⟨15601235914383, .guarded, "", "path starts with the two ASCII bytes ~/ and is longer than 2 bytes"⟩,  -- index canonicalize_path primitives/fs.rs:574
@@ -64,12 +65,10 @@ def reviewed : List Review := [
   ⟨7903164705350, .benign, "", "Gc::unwrap (gc.rs: clones the value out of the Gc; not Option::unwrap)"⟩,  -- unwrap hashset_difference primitives/hashsets.rs:155
   ⟨9667957616994, .benign, "", "Gc::unwrap (gc.rs: clones the value out of the Gc; not Option::unwrap)"⟩,  -- unwrap hashset_difference primitives/hashsets.rs:155
   ⟨17024891906331, .guarded, "", "inner fn of the context function registered with arity Exact(1)"⟩,  -- index hashset_to_mutable_vector_impl primitives/hashsets.rs:181
-  ⟨5596787087062, .reachable, "http-parse-unwrap", "httparse error on malformed input: (http-parse-request (bytes 1 2 255))"⟩,  -- unwrap parse_request primitives/http.rs:179
   ⟨12763357310111, .guarded, "", "only evaluated when res.is_complete(): httparse has then filled method/path/version/code/reason"⟩,  -- unwrap parse_request primitives/http.rs:182
   ⟨17566355151130, .guarded, "", "only evaluated when res.is_complete(): httparse has then filled method/path/version/code/reason"⟩,  -- unwrap parse_request primitives/http.rs:183
   ⟨5615351668153, .guarded, "", "only evaluated when res.is_complete(): httparse has then filled method/path/version/code/reason"⟩,  -- unwrap parse_request primitives/http.rs:184
   ⟨5509324704810, .guarded, "", "only evaluated when res.is_complete(): httparse has then filled method/path/version/code/reason"⟩,  -- unwrap parse_request primitives/http.rs:185
-  ⟨9447218523456, .reachable, "http-parse-unwrap", "httparse error on malformed input: (http-parse-response (bytes 1 2 255))"⟩,  -- unwrap parse_response primitives/http.rs:211
   ⟨13075551527854, .guarded, "", "only evaluated when res.is_complete(): httparse has then filled method/path/version/code/reason"⟩,  -- unwrap parse_response primitives/http.rs:214
   ⟨3465120443587, .guarded, "", "only evaluated when res.is_complete(): httparse has then filled method/path/version/code/reason"⟩,  -- unwrap parse_response primitives/http.rs:215
   ⟨3432530753817, .guarded, "", "only evaluated when res.is_complete(): httparse has then filled method/path/version/code/reason"⟩,  -- unwrap parse_response primitives/http.rs:216
@@ -222,7 +221,6 @@ def reviewed : List Review := [
   ⟨11668053948357, .guarded, "", "negative bounds rejected first"⟩,  -- as_usize bounds primitives/strings.rs:1346
   ⟨9968649466261, .guarded, "", "negative bounds rejected first"⟩,  -- as_usize bounds primitives/strings.rs:1357
   ⟨6153550135042, .guarded, "", "negative bounds rejected first"⟩,  -- as_usize bounds primitives/strings.rs:1362
-  ⟨9830297837429, .reachable, "string-join-extra-argument-todo", "(string-join (list \"a\") \",\" \"x\") hits todo!()"⟩,  -- todo string_join primitives/strings.rs:1513
   ⟨15747814775732, .guarded, "", "arity attribute of the registration (min 1) is checked by the generated wrapper before the body"⟩,  -- index symbol_to_string primitives/symbols.rs:122
   ⟨10031278883744, .guarded, "", "arity attribute of the registration (min 1) is checked by the generated wrapper before the body"⟩,  -- index symbol_to_string primitives/symbols.rs:125
   ⟨12781932033823, .guarded, "", "arity attribute of the registration (min 1) is checked by the generated wrapper before the body"⟩,  -- index symbol_to_string primitives/symbols.rs:128
@@ -253,8 +251,8 @@ def reviewed : List Review := [
   ⟨5282050727264, .benign, "", "upgrade of the heap reference of a live value: fails only if the collector freed reachable storage (C04)"⟩,  -- unwrap mut_vec_length primitives/vectors.rs:936
   ⟨6566794319626, .guarded, "", "arity attribute of the registration (min 2) is checked by the generated wrapper before the body"⟩,  -- index vec_range primitives/vectors.rs:1070
   ⟨13051514080163, .guarded, "", "arity attribute of the registration (min 2) is checked by the generated wrapper before the body"⟩,  -- index vec_range primitives/vectors.rs:1070
-  ⟨8155224182277, .reachable, "negative-count-becomes-huge", "a negative bound becomes ~2^64: (range-vec 0 -1) never returns and eats memory"⟩,  -- as_usize vec_range primitives/vectors.rs:1073
-  ⟨17365417754872, .reachable, "negative-count-becomes-huge", "a negative bound becomes ~2^64: (range-vec 0 -1) never returns and eats memory"⟩,  -- as_usize vec_range primitives/vectors.rs:1073
+  ⟨8155224182277, .guarded, "", "negative bounds are rejected by the arm above (since /repo commit dbe72b10; was finding negative-count-becomes-huge)"⟩,  -- as_usize vec_range primitives/vectors.rs
+  ⟨17365417754872, .guarded, "", "negative bounds are rejected by the arm above (since /repo commit dbe72b10; was finding negative-count-becomes-huge)"⟩,  -- as_usize vec_range primitives/vectors.rs
   ⟨2144821357372, .guarded, "", "arity attribute of the registration (min 2) is checked by the generated wrapper before the body"⟩,  -- index mut_vec_get primitives/vectors.rs:1097
   ⟨1850706224051, .guarded, "", "arity attribute of the registration (min 2) is checked by the generated wrapper before the body"⟩,  -- index mut_vec_get primitives/vectors.rs:1098
   ⟨9159985708504, .guarded, "", "i < 0 and i >= len rejected above"⟩,  -- as_usize mut_vec_get primitives/vectors.rs:1110
@@ -310,9 +308,6 @@ def reviewed : List Review := [
   ⟨4577888170471, .benign, "", "IntoSteelVal of a string / integer / custom struct never fails"⟩,  -- unwrap arity_to_list steel_vm/primitives.rs:1880
   ⟨16843412283098, .benign, "", "IntoSteelVal of a string / integer / custom struct never fails"⟩,  -- unwrap arity_to_list steel_vm/primitives.rs:1881
   ⟨3026422344549, .benign, "", "Vec<SteelVal>::into_steelval never fails"⟩,  -- unwrap arity_to_list steel_vm/primitives.rs:1885
-  ⟨3695359182930, .reachable, "function-arity-empty-contract-struct", "a script struct named FunctionContract without fields attached with attach-contract-struct!: (function-arity f) indexes fields[0]"⟩,  -- index arity steel_vm/primitives.rs:1897
-  ⟨10146351058108, .reachable, "mvector-index-unchecked", "#%private/steel/mvector mutable-vector-set! does not check the index"⟩,  -- index vector_set steel_vm/primitives.rs:1968
-  ⟨16102860804772, .reachable, "mvector-index-unchecked", "#%private/steel/mvector mutable-vector-ref does not check the index"⟩,  -- index vector_ref steel_vm/primitives.rs:1972
   ⟨8487239073901, .guarded, "", "arity attribute of the registration (min 1) is checked by the generated wrapper before the body"⟩,  -- index intern_symbol steel_vm/primitives.rs:2113
   ⟨1462218336420, .guarded, "", "pattern guard *n >= 0 (verification hook)"⟩,  -- as_usize verif_gc_every steel_vm/primitives.rs:2228
   ⟨1411796099625, .guarded, "", "arity attribute of the registration (min 1) is checked by the generated wrapper before the body"⟩,  -- index make_mutable_box steel_vm/primitives.rs:2274
@@ -336,7 +331,7 @@ def reviewed : List Review := [
   ⟨9865499776771, .guarded, "", "args.len() < 2 rejected at the top"⟩,  -- index error_with_src_loc steel_vm/primitives.rs:2767
   ⟨15693207756456, .guarded, "", "args.len() != 2 rejected at the top"⟩,  -- index error_from_error_with_span steel_vm/primitives.rs:2786
   ⟨4014433439351, .guarded, "", "args.len() != 2 rejected at the top"⟩,  -- index error_from_error_with_span steel_vm/primitives.rs:2794
-  ⟨12151792861830, .reachable, "builtin-indexes-args-without-arity-check", "no arity check: (raise-error) indexes args[0]"⟩,  -- index raise_error_from_error steel_vm/primitives.rs:2802
+  ⟨12151792861830, .guarded, "", "args.len() != 1 is rejected at the top (since /repo commit 3bbd20ff; was finding builtin-indexes-args-without-arity-check)"⟩,  -- index raise_error_from_error steel_vm/primitives.rs
   ⟨1391634798742, .dead, "", "never registered, never called"⟩   -- todo _lookup_doc steel_vm/primitives.rs:2816
 ]
 
